@@ -27,8 +27,9 @@ func init() {
 		RunsPerProc: 9,
 		HangS:       240,
 		LevelText: "seeded search over block-DB and block-store workloads (record sets, key positions present/absent/before/between/beyond, compression, headers, " +
-			"reopen by a fresh or by the writing object, blocks with seeded transactions/outputs/magic blocks) and over process-crash points " +
-			"(file images cut inside a seeded write(2) of a seeded operation); a clean batch is evidence, not proof",
+			"reopen by a fresh or by the writing object, blocks with seeded transactions/outputs/magic blocks), over process-crash points " +
+			"(file images cut inside a seeded write(2) of a seeded operation) and over I/O errors partway through a seeded block-DB record write " +
+			"(seeded number of bytes reaches the file, WriteData fails, the writer retries or not and carries on); a clean batch is evidence, not proof",
 		LevelNote: "real files on the host file system, real blockdb/blockstore/block-entity code in a child process; crash images are manufactured from recorded file lengths and " +
 			"the order of writes read off the code (append-only files: every prefix is a possible process-crash image), not by killing a process; power-loss images are explored report-only; " +
 			"a hang is declared from user-mode CPU time consumed by the operation (0.5 s for point reads that cost microseconds, 10 s for bulk operations), not from wall time",
@@ -39,7 +40,7 @@ func init() {
 				"sharder/blockstore (Init, BlockStore.Write/Read/ReadWithBlockSummary, zlib+msgpack files, LRU file cache)",
 				"chaincore/block, chaincore/transaction, chaincore/node entities with real hashing (Block.HashBlock, Transaction.Sign, MagicBlock.GetHash)",
 				"OS file system (tmpfs /dev/shm, or $VERIF_SCRATCH / $TMPDIR)"},
-			Sim:  []string{"crash-image manufacturer (process-crash fatal, power-loss report-only)", "operation deadline (CPU budget watchdog in the SUT process)", "reference model of written records and blocks"},
+			Sim:  []string{"crash-image manufacturer (process-crash fatal, power-loss report-only)", "write-error injector (RLIMIT_FSIZE lowered in the SUT process for one WriteData: short write, then EFBIG)", "operation deadline (CPU budget watchdog in the SUT process)", "reference model of written records and blocks"},
 			Stub: []string{},
 		},
 		Assumptions: []string{
@@ -48,6 +49,7 @@ func init() {
 			"each block-DB path is written once (Create, WriteData*, Save) as the package documents an immutable database; re-creating a DB over an existing path is not explored",
 			"keys have exactly the DB's key length; lookups also use other lengths",
 			"a key written twice may read back as either record written under it",
+			"injected write error: one WriteData per fault fails like a full disk (the first bytes of the record reach the file, then EFBIG); Save and reads are not failed. A record counts as written when WriteData returned nil and Save succeeded; a key whose every write failed may be absent, unreadable or return bytes (counted, not reported) but its read must return; it is read only when the failure left the 4-byte length prefix intact, and ReadAll is not called on a DB whose data file holds a partial record (both are not repeatable on the shipped code, see NOTES.md)",
 			"a point read / open that has consumed 0.5 s of user-mode CPU (or 4 s of user+kernel CPU) without returning is a hang (normal cost is microseconds to a few ms); bulk operations (ReadAll, block read/write) get 10 s; an operation that neither returns nor burns CPU for 90 s of wall time is reported as blocked",
 		},
 	})
@@ -67,7 +69,9 @@ func genC26(seed uint64, tier string) *sim.Plan {
 		p.Cfg["keylen"] = int64(keyLens[sw.Pick([]int{6, 8, 14, 14, 12, 14, 24, 8})])
 		p.Cfg["compress"] = int64(sw.Intn(2))
 		p.Cfg["header"] = int64(sw.Pick([]int{40, 40, 20})) // none, small, large
-		genDB(r, p, thorough)
+		// injected write errors are drawn from a stream of their own, so the
+		// fault-free part of every plan is what it was before they existed
+		genDB(r, sim.NewRNG(seed).Child("plan/wfault"), p, thorough)
 	} else {
 		p.Cfg["mode"] = 1
 		p.Cfg["cache"] = int64([]int{0, 0, 0, 1, 2, 3}[sw.Intn(6)])
@@ -91,7 +95,7 @@ func simplifyC26(p *sim.Plan) []*sim.Plan {
 	q := p.Clone()
 	for i, st := range q.Steps {
 		switch st.Op {
-		case "put", "dup":
+		case "put", "dup", "putfail":
 			if st.Int(1, 0) > 8 {
 				q.Steps[i].I[1] = 8
 				big = true
@@ -112,7 +116,13 @@ func simplifyC26(p *sim.Plan) []*sim.Plan {
 
 func step(op string, i ...int64) sim.Step { return sim.Step{Op: op, I: i} }
 
-func genDB(r *sim.RNG, p *sim.Plan, thorough bool) {
+// genDB: r draws the fault-free workload, f the injected write errors
+// ("putfail": the write of one record fails with an I/O error after a seeded
+// number of its bytes reached the data file; cut mode and selector are
+// resolved against the record's on-disk length at execution time), what
+// follows them (a retry of the same record or not) and the extra reads of a
+// generation that met one.
+func genDB(r, f *sim.RNG, p *sim.Plan, thorough bool) {
 	crashID := int64(0)
 	crash := func() {
 		crashID++
@@ -148,7 +158,39 @@ func genDB(r *sim.RNG, p *sim.Plan, thorough bool) {
 				n = r.Range(41, 600)
 			}
 		}
+		faultAt := map[int]int{}
+		if f.Bool(0.4) {
+			for k := 1 + f.Pick([]int{70, 30}); k > 0; k-- {
+				faultAt[f.Intn(n+1)]++
+			}
+		}
+		nfault := 0
+		faults := func(at int) {
+			for k := faultAt[at]; k > 0; k-- {
+				var size int
+				switch f.Pick([]int{4, 26, 40, 25, 5}) {
+				case 0:
+					size = 0
+				case 1:
+					size = f.Range(1, 16)
+				case 2:
+					size = f.Range(17, 300)
+				case 3:
+					size = f.Range(301, 5000)
+				default:
+					size = f.Range(5001, 70000)
+				}
+				a := []int64{int64(g*10000 + 5000 + nfault), int64(size), int64(f.Intn(1 << 30)), int64(f.Intn(3))}
+				nfault++
+				// cut: inside the length prefix, the prefix exactly, inside the payload, the last bytes missing
+				p.Steps = append(p.Steps, step("putfail", a[0], a[1], a[2], a[3], int64(f.Pick([]int{20, 10, 50, 20})), int64(f.Intn(1<<20))))
+				if f.Bool(0.6) { // room again: the caller writes the same record once more
+					p.Steps = append(p.Steps, step("put", a...))
+				}
+			}
+		}
 		for i := 0; i < n; i++ {
+			faults(i)
 			var size int
 			switch r.Pick([]int{5, 30, 40, 20, 5}) {
 			case 0:
@@ -171,6 +213,7 @@ func genDB(r *sim.RNG, p *sim.Plan, thorough bool) {
 				crash()
 			}
 		}
+		faults(n)
 		if r.Bool(0.15) {
 			crash()
 		}
@@ -181,6 +224,14 @@ func genDB(r *sim.RNG, p *sim.Plan, thorough bool) {
 		style := int64(r.Pick([]int{70, 30}))
 		p.Steps = append(p.Steps, step("reopen", style))
 		gets(r.Range(3, 12))
+		if nfault > 0 {
+			for k := f.Range(2, 5); k > 0; k-- {
+				p.Steps = append(p.Steps, step("get", 0, int64(f.Intn(1<<20))))
+			}
+			for k := f.Range(0, 2); k > 0; k-- {
+				p.Steps = append(p.Steps, step("get", 7, int64(f.Intn(1<<20))))
+			}
+		}
 		if r.Bool(0.2) {
 			p.Steps = append(p.Steps, step("readall"))
 		}
@@ -262,6 +313,10 @@ type dbGen struct {
 	saveOp  int
 	writer  bool // the writing object is alive in the SUT process
 	aborted bool
+	// injected write errors
+	failed  map[string]int64 // key -> bytes of the (last) failed write of it that reached the file
+	failOrd []string         // keys with a failed write, first-failure order
+	partial bool             // a failed write left bytes in the data file
 }
 
 type blk struct {
@@ -607,9 +662,17 @@ func (w *world) dbStep(st sim.Step) {
 		}
 		if _, ok := g.recs[string(key)]; !ok {
 			g.order = append(g.order, string(key))
+			if _, failed := g.failed[string(key)]; failed {
+				tr.Probe("failed_write_retried")
+			}
+		}
+		if g.partial {
+			tr.Probe("write_after_partial_write")
 		}
 		g.recs[string(key)] = append(g.recs[string(key)], data)
 		w.record("put", g.idx, nil, nil)
+	case "putfail":
+		w.dbPutFail(st)
 	case "save":
 		g := w.cur
 		if g == nil {
@@ -655,6 +718,80 @@ func (w *world) dbStep(st sim.Step) {
 	case "crash":
 		w.crashStep(st)
 	}
+}
+
+// dbPutFail: the write of one record fails partway with an I/O error (the
+// SUT process lowers its file size limit for the call). The record is not
+// acknowledged: it enters the model only through a later successful write.
+func (w *world) dbPutFail(st sim.Step) {
+	tr := w.tr
+	if !w.ensureWriter() {
+		return
+	}
+	g := w.cur
+	key := w.key(st.Int(0, 0))
+	if _, ok := g.recs[string(key)]; ok {
+		// never an overwrite of an acknowledged record: which of the two a read
+		// then owes is not stated by the property
+		tr.Outcome("putfail/skip-written")
+		return
+	}
+	size := int(st.Int(1, 0))
+	data := w.payload(st.Int(2, 0), size, st.Int(3, 0))
+	r := call(&request{Op: "dbputfail", File: w.file(g), Dir: filepath.Join(w.root, "wfprobe"), KeyLen: w.keylen, Compress: w.compress,
+		Key: key, Data: data, CutMode: int(st.Int(4, 0)), CutSel: st.Int(5, 0)})
+	o := outcome(r)
+	if strings.HasPrefix(r.Err, "verif:") {
+		panic("store world: write-error injection failed: " + scrub(r.Err, w.root))
+	}
+	tr.Event("putfail db%d key#%d size=%d cut=%d/%d grew=%d %s", g.idx, st.Int(0, 0), size, r.Cut, r.Total, r.Grew, o)
+	tr.Outcome("putfail/" + o)
+	switch {
+	case lost(r) || o == "panic":
+		w.viol("write-error", "blockdb/write-error/"+o, fmt.Sprintf("WriteData of a %d-byte record under an I/O error after %d of %d bytes did not return an error: %s %s", size, r.Cut, r.Total, o, r.Panic))
+		if lost(r) {
+			w.sutLost()
+			w.done = true
+		}
+		return
+	case o == "ok":
+		if r.Grew != r.Total {
+			// acknowledged although the record is not in the file in full
+			w.viol("write-error", "blockdb/write-error/acknowledged", fmt.Sprintf("WriteData returned nil although only %d of the record's %d bytes reached the file", r.Grew, r.Total))
+			w.record("putfail", g.idx, nil, nil)
+			return
+		}
+		// the limit did not bite (the record is shorter than sized): an ordinary acknowledged write
+		tr.Probe("write_error_not_fired")
+		g.order = append(g.order, string(key))
+		g.recs[string(key)] = append(g.recs[string(key)], data)
+		w.record("put", g.idx, nil, nil)
+		return
+	}
+	if r.Grew != r.Cut {
+		panic(fmt.Sprintf("store world: injected write error let %d bytes through, %d meant", r.Grew, r.Cut))
+	}
+	switch {
+	case r.Cut == 0:
+		tr.Fault("write_error_nothing_written")
+	case r.Cut < 4:
+		tr.Fault("write_error_inside_length_prefix")
+	case r.Cut == 4:
+		tr.Fault("write_error_after_length_prefix")
+	default:
+		tr.Fault("write_error_inside_payload")
+	}
+	if g.failed == nil {
+		g.failed = map[string]int64{}
+	}
+	if _, ok := g.failed[string(key)]; !ok {
+		g.failOrd = append(g.failOrd, string(key))
+	}
+	g.failed[string(key)] = r.Cut
+	if r.Cut > 0 {
+		g.partial = true
+	}
+	w.record("putfail", g.idx, nil, nil)
 }
 
 // ensureWriter creates the next block DB when none is being written.
@@ -736,7 +873,7 @@ func (w *world) ensureReader() bool {
 // isUnknown reports whether a signature (without the property prefix) is not a listed known finding.
 func isUnknown(sig string) bool { return sim.IsKnown("C26", "C26/"+sig) == nil }
 
-var getKinds = []string{"present", "absent-before", "absent-between", "absent-beyond", "absent-random", "absent-shorter", "absent-longer"}
+var getKinds = []string{"present", "absent-before", "absent-between", "absent-beyond", "absent-random", "absent-shorter", "absent-longer", "failed-write"}
 
 func (w *world) dbGet(st sim.Step) {
 	tr := w.tr
@@ -760,11 +897,18 @@ func (w *world) dbGet(st sim.Step) {
 		tr.Outcome("get/skip-known")
 		return
 	}
+	if kind == 7 {
+		w.dbGetFailed(g, sel)
+		return
+	}
 	if !w.ensureReader() {
 		tr.Outcome("get/skip")
 		return
 	}
 	sty := styleName(w.rdStyle)
+	if kind == 0 && g.partial {
+		tr.Probe("read_present_after_partial_write")
+	}
 	sorted := append([]string{}, g.order...)
 	sort.Strings(sorted)
 	if kind == 0 && len(sorted) == 0 {
@@ -859,6 +1003,46 @@ func (w *world) dbGet(st sim.Step) {
 	}
 }
 
+// dbGetFailed reads a key whose only writes failed. The write was never
+// acknowledged, so the record may be absent or unreadable; the read must
+// still return. A read that "succeeds" with bytes that are no record is
+// counted (probe), not reported: the property promises nothing for such a
+// key. Only failures that left the length prefix intact are read: with a cut
+// prefix the shipped Read takes the bytes of the next record for a length and
+// allocates up to 2 GiB, whose cost is not repeatable (NOTES.md).
+func (w *world) dbGetFailed(g *dbGen, sel int) {
+	tr := w.tr
+	var cand []string
+	for _, k := range g.failOrd {
+		if _, acked := g.recs[k]; !acked && g.failed[k] >= 4 {
+			cand = append(cand, k)
+		}
+	}
+	if len(cand) == 0 || !w.ensureReader() {
+		tr.Outcome("get/failed-write/skip")
+		return
+	}
+	sty := styleName(w.rdStyle)
+	key := []byte(cand[sel%len(cand)])
+	r := call(&request{Op: "dbread", Key: key})
+	o := outcome(r)
+	res := o
+	pre := "blockdb/" + sty + "/read/failed-write-key/"
+	switch {
+	case lost(r) || o == "panic":
+		w.viol("read-deadline", pre+o+w.klTag(), fmt.Sprintf("Read of a key whose write had failed with an I/O error did not return: %s (user cpu %d ms, kernel %d ms) %s", o, r.CPUms, r.SysMs, r.Panic))
+	case o == "ok":
+		res = "garbage"
+		tr.Probe("failed_write_key_read_returns_bytes")
+	}
+	tr.Event("get db%d %s failed-write -> %s", g.idx, sty, res)
+	tr.Outcome("get/failed-write/" + res)
+	if lost(r) {
+		w.sutLost()
+		w.done = true
+	}
+}
+
 func isVersion(vs [][]byte, d []byte) bool {
 	for _, v := range vs {
 		if bytes.Equal(v, d) {
@@ -893,6 +1077,13 @@ func (w *world) dbReadAll() {
 	}
 	if g == nil {
 		tr.Outcome("readall/skip")
+		return
+	}
+	if g.partial {
+		// ReadAll parses the data file front to back and so runs into the bytes
+		// of the failed write; what it does there is not repeatable (see NOTES.md)
+		tr.Probe("readall_skipped_after_partial_write")
+		tr.Outcome("readall/skip-partial-write")
 		return
 	}
 	w.rdGen = nil // ReadAll reads from the current file position: use a freshly opened DB
